@@ -54,7 +54,7 @@ fn scrub_sni_shape<const P: usize, const L: usize, const OUT: usize>() {
 /*@gen
 {"name": "c20_scrub_sni_label{0}_len{1}", "call": "scrub_sni_shape::<{0}, {1}, {2}>()", "unwind": "{1} + 12", "stubs": ["memchr"], "core": true,
  "bound": "SNI of {1} bytes whose first dot is at offset {0} (offset == length: no dot); label = filler, host part symbolic over a, b, dot",
- "desc": "scrub_sni replaces the label before the first dot by the placeholder whatever its length (including the DNS maximum of 63 bytes and beyond) and leaves dot-free names unchanged",
+ "desc": "scrub_sni replaces the label before the first dot by the placeholder for the enumerated label lengths (0..=20 bytes; instances with 63- and 64-byte labels exhaust 10 GB and are not part of any tier) and leaves dot-free names unchanged",
  "encodes": ["net_utils::scrub_sni"],
- "quick": "[(0,3,11),(1,4,11),(3,7,12),(5,5,5),(12,14,10)]", "thorough": "[(63,68,13),(64,68,12),(2,2,2),(7,12,13),(17,20,11)]"}
+ "quick": "[(0,3,11),(1,4,11),(3,7,12),(5,5,5),(12,14,10)]", "thorough": "[(2,2,2),(7,12,13),(17,20,11),(20,24,12)]"}
 @*/
